@@ -767,11 +767,13 @@ func (res *Response) BuildPassThroughResult(ctx context.Context) {
 	// build columns list
 	backendColumns := []string{}
 	virtualColumns := []*Column{}
+	virtualIndex := []int{} // position of each virtual column, a column may be requested more than once
 	columnsIndex := make(map[*Column]int)
 	for colNum := range res.request.RequestColumns {
 		col := res.request.RequestColumns[colNum]
 		if col.StorageType == VirtualStore {
 			virtualColumns = append(virtualColumns, col)
+			virtualIndex = append(virtualIndex, colNum)
 		} else {
 			backendColumns = append(backendColumns, col.Name)
 		}
@@ -787,6 +789,7 @@ func (res *Response) BuildPassThroughResult(ctx context.Context) {
 			columnsIndex[field.Column] = field.Index
 			if field.Column.StorageType == VirtualStore {
 				virtualColumns = append(virtualColumns, field.Column)
+				virtualIndex = append(virtualIndex, field.Index)
 			} else {
 				backendColumns = append(backendColumns, field.Column.Name)
 			}
@@ -825,7 +828,7 @@ func (res *Response) BuildPassThroughResult(ctx context.Context) {
 			logWith(peer, passthroughRequest).Debugf("starting passthrough request")
 			defer wg.Done()
 
-			peer.PassThroughQuery(ctx, res, passthroughRequest, virtualColumns, columnsIndex)
+			peer.PassThroughQuery(ctx, res, passthroughRequest, virtualColumns, virtualIndex)
 		}(peer, waitgroup)
 	}
 	logWith(passthroughRequest).Tracef("waiting...")
